@@ -2158,8 +2158,8 @@ def _auto_ext_grid_types(p_bar, t_k, typ, comp):
     if not typ_arr:
         typ = np.array([typ] * length)
 
-    p_null = np.equal(p_bar, None) | np.isnan(p_bar)
-    t_null = np.equal(t_k, None) | np.isnan(t_k)
+    p_null = pd.isnull(np.array(p_bar, dtype=object))
+    t_null = pd.isnull(np.array(t_k, dtype=object))
 
     ptn = p_null & t_null
     if np.any(ptn):
